@@ -1,16 +1,16 @@
 SPECIFICATION Spec
 CONSTANTS
-  Cls = {"P", "C", "T"}
-  MsgKinds = {"explicit", "kwtemplate", "class"}
-  Outs = {"T", "F", "CR", "MR"}
-  DelayCls = {"P"}
+  Cls = {"P"}
+  MsgKinds = {"class"}
+  Outs = {"T"}
+  DelayCls = {}
   Vals = {"o1", "o2"}
-  Depth = 3
-  MaxObjs = 3
+  Depth = 4
+  MaxObjs = 1
   Parents = {"none"}
-  Fmts = {"F1", "F2"}
-  SecondReport = FALSE
-  Variant = "swallow"
+  Fmts = {"F1"}
+  SecondReport = TRUE
+  Variant = "impl"
 INVARIANT ExactlyOnce
 INVARIANT RightList
 INVARIANT Truth
@@ -18,4 +18,5 @@ INVARIANT ErrorPath
 INVARIANT RaisesToCaller
 INVARIANT MessageDerivation
 INVARIANT OverridesRestored
+CONSTRAINT Export
 CHECK_DEADLOCK FALSE
